@@ -37,12 +37,14 @@ META = dict(
     bounds=dict(
         quick='all 16 fields; scalar shapes int, float; pair shapes (int,'
         'int), (float,float), (int,float), (float,int); window [-4,12]; 24 '
-        'special concrete members per field; __eq__ over 3 fields x 3 values',
+        'special concrete members per field; __eq__ over 5 fields x 2-3 values, '
+        'before and after one field of the second object is reassigned',
         thorough='same shapes with longer CrossHair budgets (900 s per '
         'condition)'),
     outside='finite values outside [-4, 12] are covered by CrossHair for '
-    'float shapes only; bool values and equal endpoints of share / budget '
-    'ranges are don\'t-care (documentation silent)',
+    'float shapes only; equal endpoints of share / budget '
+    'ranges are rejected (the constructor states lower < upper for them); '
+    'bool values are don\'t-care (documentation silent)',
     stubs=['TBRMMDesignParameters._is_optional replaced, under CrossHair '
            'only, by a table precomputed from the real method (typing '
            'objects are not hashable by CrossHair proxies)'],
@@ -140,8 +142,8 @@ def field_job(name, field, shape, twin=False, max_s=600):
       base[field] = (a, b)
       pred = range_pred(field, a.e, b.e)
       terms = [a.e, b.e]
-      if field in ('treatment_share_range', 'budget_range'):
-        eng().assume(a.e != b.e)      # equal endpoints: don't-care
+      # equal endpoints of share / budget ranges: rejected (the constructor's
+      # stated rule is 'lower bound must be < upper bound')
     try:
       P(**base)
       outcome = 'accepted'
@@ -227,8 +229,6 @@ def _concrete_range_ok(name, v):
   a, b = v
   if a != a or b != b:
     return False
-  if a == b and not integer:
-    return None       # don't-care
   ok = (a >= lo) if lc else (a > lo)
   ok = ok and (b < (hi if hi is not None else INF))
   ok = ok and ((a < b) if strict else (a <= b))
@@ -304,8 +304,8 @@ def special_job(name, twin=False):
   return js.r
 
 
-EQ_FIELDS = [('n_test', [1, 2, 2.0]), ('iroas', [0.0, 1.5]),
-             ('budget_range', [None, (1, 2), (1.0, 2.0), (1, 3)]),
+EQ_FIELDS = [('n_test', [1, 2.0]), ('iroas', [0.0, 1.5]),
+             ('budget_range', [None, (1, 2), (1, 3)]),
              ('n_designs', [1, 3]), ('geo_ratio_tolerance', [None, 0.5])]
 
 
@@ -323,7 +323,15 @@ def eq_job(name, max_s=600):
       kw2[f] = vals[symx.choose('q_' + f, 0, len(vals) - 1)]
     p, q = P(**kw1), P(**kw2)
     same = all(kw1[f] == kw2[f] for f, _ in EQ_FIELDS)
-    return (p == q) == same and (p == p) and (q == q), kw1, kw2
+    ok = (p == q) == same and (p == p) and (q == q)
+    # equality compares the *current* field values: assign after comparing
+    f = EQ_FIELDS[symx.choose('mut', 0, len(EQ_FIELDS) - 1)][0]
+    setattr(q, f, kw1[f])
+    kw2b = dict(kw2)
+    kw2b[f] = kw1[f]
+    same2 = all(kw1[g] == kw2b[g] for g, _ in EQ_FIELDS)
+    ok = ok and (p == q) == same2 and (q == p) == same2
+    return ok, kw1, dict(kw2, _then_assign=f)
 
   def on_path(eng_, res):
     js.r['obligations'] += 1
@@ -428,8 +436,15 @@ def replay(case):
         'p'].items()}
     kw2 = {a: tuple(b) if isinstance(b, list) else b for a, b in case[
         'q'].items()}
+    then = kw2.pop('_then_assign', None)
     p, q = P(**kw1), P(**kw2)
     same = all(kw1[f] == kw2[f] for f in kw1)
-    return dict(violates=(p == q) != same, key='C17:eq',
-                detail='p=%s q=%s eq=%s' % (kw1, kw2, p == q))
+    bad = (p == q) != same
+    if then is not None:
+      setattr(q, then, kw1[then])
+      kw2[then] = kw1[then]
+      same2 = all(kw1[f] == kw2[f] for f in kw1)
+      bad = bad or (p == q) != same2
+    return dict(violates=bad, key='C17:eq', detail='p=%s q=%s (then q.%s = '
+                'p.%s) eq=%s' % (kw1, kw2, then, then, p == q))
   return dict(violates=False, detail='unknown case kind')
